@@ -86,6 +86,38 @@ Check (dataset_query_each_once : forall fast max pl ops sm pm om gm,
   let st := final pl (dataset_impl fast max) ops in
   NoDup (d_query fast max st sm pm om gm)
   /\ Permutation (d_query fast max st sm pm om gm) (filter (qmatch false sm pm om gm) (d_all max st))).
+(* enumeration matchers ([T;N], &[T], [GraphName<T>;N], &[GraphName<T>]): a term listed several times, or the
+   order of the list, does not show in the answer *)
+Check (tm_array_pred : forall l x, tm_pred (tm_array l) x = true <-> In x l).
+Check (graph_query_enumeration : forall fast max pl ops ls lp lo gm,
+  Forall op_wf ops ->
+  let st := final pl (graph_impl fast max) ops in
+  let ans := g_query fast max st (tm_array ls) (tm_array lp) (tm_array lo) gm in
+  NoDup ans
+  /\ (forall q, In q ans <-> In q (g_all st) /\ In (qs q) ls /\ In (qp q) lp /\ In (qo q) lo)).
+Check (graph_query_respelled : forall fast max pl ops ls ls' lp lp' lo lo' gm,
+  Forall op_wf ops ->
+  (forall x, In x ls <-> In x ls') -> (forall x, In x lp <-> In x lp') -> (forall x, In x lo <-> In x lo') ->
+  let st := final pl (graph_impl fast max) ops in
+  Permutation (g_query fast max st (tm_array ls) (tm_array lp) (tm_array lo) gm)
+              (g_query fast max st (tm_array ls') (tm_array lp') (tm_array lo') gm)).
+Check (dataset_query_respelled : forall fast max pl ops ls ls' lp lp' lo lo' lg lg',
+  Forall op_wf ops ->
+  (forall x, In x ls <-> In x ls') -> (forall x, In x lp <-> In x lp') -> (forall x, In x lo <-> In x lo') ->
+  (forall g, gm_pred (gm_array lg) g = gm_pred (gm_array lg') g) ->
+  let st := final pl (dataset_impl fast max) ops in
+  NoDup (d_query fast max st (tm_array ls) (tm_array lp) (tm_array lo) (gm_array lg))
+  /\ Permutation (d_query fast max st (tm_array ls) (tm_array lp) (tm_array lo) (gm_array lg))
+                 (d_query fast max st (tm_array ls') (tm_array lp') (tm_array lo') (gm_array lg'))).
+(* not vacuous: [a; a] and [a] list the same terms, and a graph holding two triples of subject 1 answers both with
+   these two triples, whether it is heavily or lightly indexed *)
+Example respelled_hyp : forall x : N, In x [1; 1] <-> In x [1].
+Proof. intros x; simpl; tauto. Qed.
+Example enumeration_twice_listed :
+  let ops := [Insert (mkQ 1 3 2 None); Insert (mkQ 1 3 4 None); Insert (mkQ 2 3 1 None)] in
+  map (fun fast => length (g_query fast 4294967295 (final [] (graph_impl fast 4294967295) ops)
+                              (tm_array [1; 1]) (md MAny) (md MAny) (gd GAny))) [true; false] = [2%nat; 2%nat].
+Proof. vm_compute. reflexivity. Qed.
 Check (dataset_index_full : forall fast max st q,
   DInv fast max st -> snd (d_insert fast max st q) = None ->
   let st' := fst (d_insert fast max st q) in
@@ -363,6 +395,10 @@ Print Assumptions graph_state_is_set.
 Print Assumptions dataset_state_is_set.
 Print Assumptions graph_query_each_once.
 Print Assumptions dataset_query_each_once.
+Print Assumptions tm_array_pred.
+Print Assumptions graph_query_enumeration.
+Print Assumptions graph_query_respelled.
+Print Assumptions dataset_query_respelled.
 Print Assumptions dataset_index_full.
 Print Assumptions graph_index_full.
 Print Assumptions remove_members.
